@@ -25,6 +25,7 @@ import (
 func (process *Process) SpawnThenTransitionNP(re *RuntimeEnvironment) {
 	// Increment ProcessCount atomically
 	atomic.AddUint64(&re.processCount, 1)
+	vhSpawn(re, process)
 
 	if re.UseMonitor {
 		// notify monitor about new process
@@ -36,6 +37,7 @@ func (process *Process) SpawnThenTransitionNP(re *RuntimeEnvironment) {
 
 // Entry point for each process transition
 func (process *Process) transitionLoopNP(re *RuntimeEnvironment) {
+	vhStep(re, process)
 	re.logProcessf(LOGPROCESSING, process, "Process transitioning: %s\n", process.Body.String())
 
 	// Send heartbeat
@@ -45,6 +47,7 @@ func (process *Process) transitionLoopNP(re *RuntimeEnvironment) {
 	time.Sleep(re.Delay)
 
 	process.Body.TransitionNP(process, re)
+	vhIdle(re, process)
 }
 
 // When a process starts transitioning, a process chooses to transition as one of these forms:
@@ -61,13 +64,16 @@ func TransitionBySendingNP(process *Process, toChan chan Message, continuationFu
 		// Split process if needed
 		process.performDUPruleNP(re)
 	} else {
+		vhBlock(re, process, 3, toChan, process.Providers[0].ControlChannel, nil)
 		select {
 		case <-re.ctx.Done():
 			// Handle timeout event
 			return
 		case cm := <-process.Providers[0].ControlChannel:
+			vhUnblock(re, process, 1)
 			handleControlMessageNP(process, cm, re)
 		case toChan <- sendingMessage:
+			vhUnblock(re, process, 0)
 			// Sending a message to toChan
 			continuationFunc()
 		}
@@ -83,13 +89,17 @@ func TransitionByReceivingNP(process *Process, clientChan chan Message, processM
 		// Split process if needed
 		process.performDUPruleNP(re)
 	} else {
+		vhBlock(re, process, 4, clientChan, process.Providers[0].ControlChannel, nil)
 		select {
 		case <-re.ctx.Done():
 			// Received cancellation request, so stop
 			return
 		case cm := <-process.Providers[0].ControlChannel:
+			vhUnblock(re, process, 1)
 			handleControlMessageNP(process, cm, re)
 		case receivedMessage := <-clientChan:
+			vhUnblock(re, process, 0)
+			vhRecv(re, process, &receivedMessage)
 			// Acting as a client by consuming a message from some channel
 			processMessageFunc(receivedMessage)
 		}
@@ -110,6 +120,7 @@ func TransitionInternallyNP(process *Process, internalFunction func(), re *Runti
 	} else {
 		select {
 		case cm := <-process.Providers[0].ControlChannel:
+			vhCtlRecv(re, process, process.Providers[0].ControlChannel)
 			handleControlMessageNP(process, cm, re)
 		default:
 			internalFunction()
@@ -575,11 +586,14 @@ func (f *ForwardForm) TransitionNP(process *Process, re *RuntimeEnvironment) {
 	}
 
 	// TransitionAsSpecialForm(process, f.from_c.ControlChannel, forwardRule, controlMessage, re)
+	vhBlock(re, process, 5, nil, process.Providers[0].ControlChannel, f.from_c.ControlChannel)
 	select {
 	case cm := <-process.Providers[0].ControlChannel:
+		vhUnblock(re, process, 1)
 		// todo check if this should only happen if len(process.OtherProviders) == 0
 		handleControlMessageNP(process, cm, re)
 	case f.from_c.ControlChannel <- controlMessage:
+		vhUnblock(re, process, 2)
 		forwardRule()
 	}
 }
@@ -796,6 +810,7 @@ func (f *PrintForm) TransitionNP(process *Process, re *RuntimeEnvironment) {
 		if !re.Quiet {
 			fmt.Printf("> %s\n", f.label.String())
 		}
+		vhPrint(re, process, f.label.String())
 		process.finishedRule(PRINT, "[print]", "", re)
 
 		process.Body = f.continuation_e
